@@ -323,6 +323,25 @@ func init() {
 			c.do("srt.write " + canonSubs(s))
 			c.count("generated")
 		}
+		// documents well beyond the buffer sizes a writer may use (32 KiB, 64 KiB)
+		for k := 0; k < 2; k++ {
+			cues := genSRTCues(r, 5)
+			for len(cues) < 700+300*k {
+				cues = append(cues, genSRTCues(r, 5)...)
+			}
+			big := srtSubsOf(cues, r)
+			for _, it := range big.Items { // keep the large list inside what the format carries, so that it is judged
+				for li := range it.Lines {
+					for k := range it.Lines[li].Items {
+						if sa := it.Lines[li].Items[k].InlineStyle; sa != nil {
+							sa.SRTPosition = 0
+						}
+					}
+				}
+			}
+			c.do("srt.write " + canonSubs(big))
+			c.count("large")
+		}
 	}}
 }
 
